@@ -46,8 +46,8 @@ def cases(tier, seed):
     if tier != "quick":
         return u
     # quick: stratified sample + the whole (cheap) width sweep
-    always = [c for c in u if c["id"].startswith(("ws:", "rej:"))]
-    return stratified_sample([c for c in u if not c["id"].startswith(("ws:", "rej:"))], lambda c: c.get("stratum", ""), 240, seed) + always
+    always = [c for c in u if c["id"].startswith(("ws:", "qs:", "rej:"))]
+    return stratified_sample([c for c in u if not c["id"].startswith(("ws:", "qs:", "rej:"))], lambda c: c.get("stratum", ""), 240, seed) + always
 
 
 def run_case(case):
